@@ -108,6 +108,23 @@ Fixpoint first_sig_success (oracle : list arg) (data : bytes) (sigs : list (byte
 
 Definition info_eqb (a b : info) : bool := arg_eqb (arg_of_info a) (arg_of_info b).
 
+(* a line that is neither blank nor a comment ('#' first); what counts is the text before the first
+   carriage return (sshd and x/crypto/ssh cut the line there), with leading blanks and tabs skipped *)
+Fixpoint line_is_entry (l : bytes) : bool :=
+  match l with
+  | [] => false
+  | c :: r => if c =? 13 then false
+              else if (c =? 32) || (c =? 9) || (c =? 11) || (c =? 12) then line_is_entry r
+              else (33 <=? c) && (c <=? 126) && negb (c =? 35)   (* other octets: Unicode white space is trimmed too; no claim *)
+  end.
+Fixpoint has_entry_line_acc (cur : bytes) (s : bytes) : bool :=
+  match s with
+  | [] => line_is_entry (rev cur)
+  | 10 :: r => line_is_entry (rev cur) || has_entry_line_acc [] r
+  | c :: r => has_entry_line_acc (c :: cur) r
+  end.
+Definition has_entry_line (s : bytes) : bool := has_entry_line_acc [] s.
+
 Definition check_C07 (op : bytes) (input impl : arg) : arg :=
   if bytes_eqb op (bs "name") then
     (* reserved names apply to exact base names only *)
@@ -149,6 +166,14 @@ Definition check_C07 (op : bytes) (input impl : arg) : arg :=
             end
           end in
         match wf_verdict with AL [] =>
+        (* (r) a reserved SSH file name alone does not make the description: a file called authorized_keys /
+           known_hosts that is described as such a file without a single entry, although it has a line that is
+           neither blank nor a comment, was never read by that format's parser to the end - the candidate that
+           should have failed left its description behind *)
+        if spec_reserved_name name && (match i_children i with [] => true | _ => false end) && has_entry_line data
+           && (contains (bs "authorized_keys") (i_desc i) || contains (bs "known_hosts") (i_desc i))
+        then AS "a file that only carries a reserved SSH file name is described as that format although none of its lines is listed as an entry"
+        else
         (* (n) the reserved SSH names apply to exact base names only: under any other name the
            description is the one the same content gets under a neutral name *)
         if negb (spec_reserved_name name)
